@@ -90,7 +90,9 @@ def streams(tier, rng, P, only=None, cases=None):
         for j, src in enumerate(["l%127 q100 c d", "l%16383 q100 c d e", "TimeSignature(3,8) TIME(5:2:10) c", "TR(2) l%127 c TR(1) TIME(2:1:0) d",
                                  # verbatim meta events with degenerate values: a tempo of 0 microseconds, a time signature with numerator 0
                                  "DirectSMF($FF,$51,$03,0,0,0) c d", "c DirectSMF($FF,$58,$04,0,2,24,8) d e", "DirectSMF($FF,$58,$04,0,3,24,8) l8 c d e f g",
-                                 "TR(1) DirectSMF($FF,$51,$03,0,0,0) c TR(2) DirectSMF($FF,$58,$04,0,2,24,8) d"]):
+                                 "TR(1) DirectSMF($FF,$51,$03,0,0,0) c TR(2) DirectSMF($FF,$58,$04,0,2,24,8) d",
+                                 # more tracks than fit in 15 bits: the track count is a full 16-bit field
+                                 "TR=32768 TIME(2:3:7) e", "TR=300 c TR=299 TIME(3:1:0) e"]):
             cs.append(dict(req="compile_dump " + hx(src), src=src, show=src, key="fixed%d" % j, strict=True))
         return cs
     s1 = Stream("dump", cases if (cases and only == "dump") else mk_src(), model, judge, nt, "compiler outputs dumped by the real dump_midi", timeout_case=20.0)
